@@ -66,6 +66,7 @@ CLASSES = {
     'IndexError': (28, None),
     'NdefError': (29, None),
     'StructError': (30, None),
+    'UnboundLocalError': (31, None),      # implicit: read of a local that is not assigned on every path (definite assignment)
 }
 # spellings per module (local name -> class)
 SPELL = {
@@ -129,6 +130,30 @@ NONNULL_ARGS = {
         'Type4Tag.transceive(data) passes its data on: hexlify(data) in the line before raises TypeError for None, '
         'send_apdu always passes a bytearray',
 }
+
+
+# reads the definite-assignment analysis can not prove safe but that are guarded by data the analysis does not follow
+# (module, function, local): why the read is safe.  Listed in the generated header; anything not listed becomes an
+# implicit `raise UnboundLocalError` in the skeleton.
+GUARDED_READS = {
+    ('tt3', 'dump_service', 'this_data'):
+        'read after the loop only when same_data > 0, which needs two successful reads (both assign this_data)',
+    ('tt4', 'exchange', 'response'):
+        'the response chaining loop follows the command loop, whose last block (more == False) assigns response or raises',
+}
+
+
+# reads that ARE unsafe and are filed as an open finding (findings/C16.json); kept out of the skeleton so that the
+# closure obligation keeps guarding everything else.  Remove the entry once the repair is in the tree.
+KNOWN_UNBOUND = {
+    ('tt3_sony', 'print_service', 'service_type'):
+        'OPEN FINDING: FelicaStandard.dump() of a card that lists a service whose type is not random/cyclic/purse',
+    ('tt3_sony', 'print_service', 'access_types'):
+        'OPEN FINDING: FelicaStandard.dump() of a card that lists a service whose type is not random/cyclic/purse',
+}
+# instance attributes a function may write inside a loop that contains clf.exchange (retry state that outlives the
+# call has to be part of the model: Model/IsoDep.v carries the block number)
+RETRY_STATE_ATTRS = {('tt4', 'exchange'): {'pni'}}
 
 
 def cid(n):
@@ -291,6 +316,198 @@ def getter_of(fns):
     return None
 
 
+
+# ---------------------------------------------------------------- definite assignment of locals
+class DefAssign(object):
+    """Which reads of a local variable can meet an unassigned local?  Classic definite-assignment analysis over the
+    ast of one function (nested functions are analysed on their own, their free variables are not judged).
+    at_least_once=False: a for/while loop may run zero times.  at_least_once=True: every loop body runs at least once.
+    A read that is unassigned on some path in BOTH modes is an implicit `raise UnboundLocalError` in the skeleton; a
+    read that is only unassigned when a loop runs zero times is recorded as an assumption ("the loop at line L
+    iterates at least once"), like asserts on arguments."""
+
+    def __init__(self, fn, at_least_once):
+        self.fn, self.once = fn, at_least_once
+        self.flags = {}            # id(statement) -> set of names
+        self.lines = {}            # (id(statement), name) -> line
+        self.loops = []
+        params = [a.arg for a in fn.args.posonlyargs + fn.args.args + fn.args.kwonlyargs]
+        if fn.args.vararg:
+            params.append(fn.args.vararg.arg)
+        if fn.args.kwarg:
+            params.append(fn.args.kwarg.arg)
+        self.locals = set(params)
+        declared = set()
+        for n in self.walk_scope(fn.body):
+            if isinstance(n, ast.Name) and isinstance(n.ctx, (ast.Store, ast.Del)):
+                self.locals.add(n.id)
+            elif isinstance(n, (ast.FunctionDef, ast.ClassDef)):
+                self.locals.add(n.name)
+            elif isinstance(n, ast.ExceptHandler) and n.name:
+                self.locals.add(n.name)
+            elif isinstance(n, (ast.Import, ast.ImportFrom)):
+                for a in n.names:
+                    self.locals.add((a.asname or a.name).split('.')[0])
+            elif isinstance(n, (ast.Global, ast.Nonlocal)):
+                declared |= set(n.names)
+        self.locals -= declared
+        self.block(fn.body, set(params))
+
+    @staticmethod
+    def walk_scope(nodes):
+        """all nodes of this scope: does not descend into nested functions, lambdas, classes, comprehensions"""
+        todo = list(nodes)
+        while todo:
+            n = todo.pop()
+            yield n
+            for c in ast.iter_child_nodes(n):
+                if isinstance(n, (ast.FunctionDef, ast.Lambda, ast.ClassDef)) and n is not c and not \
+                        (isinstance(n, ast.FunctionDef) and c in n.decorator_list):
+                    continue
+                if isinstance(c, (ast.ListComp, ast.SetComp, ast.DictComp, ast.GeneratorExp)):
+                    # only the first iterable is evaluated in this scope
+                    todo.append(c.generators[0].iter)
+                    continue
+                todo.append(c)
+
+    @staticmethod
+    def meet(a, b):
+        if a is None:
+            return b
+        if b is None:
+            return a
+        return a & b
+
+    def reads(self, exprs, st, s):
+        if st is None:
+            return
+        for e in exprs:
+            if e is None:
+                continue
+            for n in self.walk_scope([e]):
+                if isinstance(n, ast.Name) and isinstance(n.ctx, ast.Load) and n.id in self.locals and n.id not in st:
+                    self.flags.setdefault(id(s), set()).add(n.id)
+                    self.lines[(id(s), n.id)] = n.lineno
+
+    def stores(self, targets):
+        out = set()
+        for t in targets:
+            for n in ast.walk(t):
+                if isinstance(n, ast.Name) and isinstance(n.ctx, ast.Store):
+                    out.add(n.id)
+        return out
+
+    def block(self, stmts, st):
+        for s in stmts:
+            st = self.stmt(s, st)
+        return st
+
+    def stmt(self, s, st):
+        if st is None:
+            return None                 # unreachable
+        t = type(s)
+        if t is ast.Assign:
+            self.reads([s.value] + [x for x in s.targets if not isinstance(x, ast.Name)], st, s)
+            return st | self.stores(s.targets)
+        if t is ast.AugAssign:
+            self.reads([s.value, s.target], st, s)
+            if isinstance(s.target, ast.Name) and s.target.id in self.locals and s.target.id not in st:
+                self.flags.setdefault(id(s), set()).add(s.target.id)
+                self.lines[(id(s), s.target.id)] = s.lineno
+            return st | self.stores([s.target])
+        if t is ast.AnnAssign:
+            self.reads([s.value], st, s)
+            return st | self.stores([s.target]) if s.value is not None else st
+        if t is ast.Expr:
+            self.reads([s.value], st, s)
+            return st
+        if t is ast.Return:
+            self.reads([s.value], st, s)
+            return None
+        if t is ast.Raise:
+            self.reads([s.exc, s.cause], st, s)
+            return None
+        if t is ast.Assert:
+            self.reads([s.test, s.msg], st, s)
+            return st
+        if t is ast.Delete:
+            self.reads([x for x in s.targets if not isinstance(x, ast.Name)], st, s)
+            return st - {x.id for x in s.targets if isinstance(x, ast.Name)}
+        if t in (ast.Pass, ast.Global, ast.Nonlocal):
+            return st
+        if t in (ast.Import, ast.ImportFrom):
+            return st | {(a.asname or a.name).split('.')[0] for a in s.names}
+        if t in (ast.FunctionDef, ast.ClassDef):
+            return st | {s.name}
+        if t is ast.If:
+            self.reads([s.test], st, s)
+            return self.meet(self.block(s.body, set(st)), self.block(s.orelse, set(st)))
+        if t in (ast.For, ast.While):
+            if t is ast.For:
+                self.reads([s.iter] + [x for x in [s.target] if not isinstance(x, (ast.Name, ast.Tuple))], st, s)
+                st_in = st | self.stores([s.target])
+                forever = False
+            else:
+                self.reads([s.test], st, s)
+                st_in = set(st)
+                forever = isinstance(s.test, ast.Constant) and bool(s.test.value)
+            self.loops.append({'breaks': [], 'conts': []})
+            body_out = self.block(s.body, set(st_in))
+            lp = self.loops.pop()
+            end = body_out
+            for c in lp['conts']:
+                end = self.meet(end, c)
+            if forever:
+                exhausted = None
+            elif self.once:
+                exhausted = end           # None when the body never completes an iteration normally
+            else:
+                exhausted = self.meet(set(st), end)
+            out = self.block(s.orelse, exhausted) if exhausted is not None else None
+            for b in lp['breaks']:
+                out = self.meet(out, b)
+            return out
+        if t is ast.Break:
+            self.loops[-1]['breaks'].append(set(st))
+            return None
+        if t is ast.Continue:
+            self.loops[-1]['conts'].append(set(st))
+            return None
+        if t is ast.Try:
+            if s.finalbody:
+                raise SkelError('%d: try/finally is not supported by the definite-assignment analysis' % s.lineno)
+            out = self.block(s.body, set(st))
+            out = self.block(s.orelse, out) if out is not None else None
+            for h in s.handlers:
+                self.reads([h.type], st, s)
+                hin = set(st) | ({h.name} if h.name else set())
+                hout = self.block(h.body, hin)
+                if hout is not None and h.name:
+                    hout = hout - {h.name}       # python deletes the name at the end of the handler
+                out = self.meet(out, hout)
+            return out
+        raise SkelError('%d: statement %s not supported by the definite-assignment analysis' % (s.lineno, t.__name__))
+
+
+def unbound_reads(fn):
+    """annotate the statements of fn: s._c16_unbound = names that may be unassigned when s reads them;
+    returns the assumptions (reads that are safe as soon as every loop runs at least once)"""
+    if getattr(fn, '_c16_da', None) is not None:
+        return fn._c16_da
+    a, b = DefAssign(fn, False), DefAssign(fn, True)
+    stm = {id(n): n for n in ast.walk(fn) if isinstance(n, ast.stmt)}
+    notes = []
+    for sid, names in a.flags.items():
+        real = b.flags.get(sid, set())
+        if real:
+            stm[sid]._c16_unbound = sorted(real)
+        for nm in sorted(names - real):
+            notes.append('the loop(s) before line %d of %s() run at least once (local `%s` is assigned in a loop body only)'
+                         % (a.lines[(sid, nm)], fn.name, nm))
+    fn._c16_da = notes
+    return notes
+
+
 # value kinds of the little type inference
 TAG, NDEF, MEM, DEPK, CLF = 'tag', 'ndef', 'mem', 'dep', 'clf'
 PARAM_KINDS = {'tag': TAG, 'tag_memory': MEM, 'memory': MEM, 'clf': CLF}
@@ -366,7 +583,32 @@ class Translator(object):
             self.bind_params(ctx, node)
             self.funcs[key] = self.body(ctx, node.body)
 
+    def check_retry_state(self, ctx, node):
+        """fail closed: an instance attribute written inside a loop that talks to the tag is state that survives the
+        call (a retry counter kept on the object ...); it must be known to the models"""
+        ok = RETRY_STATE_ATTRS.get((ctx.modname, node.name), set())
+        for lp in ast.walk(node):
+            if not isinstance(lp, (ast.For, ast.While)):
+                continue
+            talks = any(isinstance(c, ast.Call) and isinstance(c.func, ast.Attribute) and c.func.attr == 'exchange'
+                        for c in ast.walk(lp))
+            if not talks:
+                continue
+            for n in ast.walk(lp):
+                tg = []
+                if isinstance(n, ast.Assign):
+                    tg = n.targets
+                elif isinstance(n, (ast.AugAssign, ast.AnnAssign)):
+                    tg = [n.target]
+                for t in tg:
+                    for x in ast.walk(t):
+                        if isinstance(x, ast.Attribute) and isinstance(x.ctx, ast.Store) and dotted(x.value) == 'self' \
+                                and x.attr not in ok:
+                            raise SkelError('%s:%d: %s() writes self.%s inside a loop that exchanges with the tag: retry state '
+                                            'kept on the object is not part of the model' % (ctx.modname, x.lineno, node.name, x.attr))
+
     def bind_params(self, ctx, node):
+        self.check_retry_state(ctx, node)
         for a in node.args.args:
             if a.arg in PARAM_KINDS:
                 ctx.env[a.arg] = PARAM_KINDS[a.arg]
@@ -803,6 +1045,30 @@ class Translator(object):
         return sh
 
     def stmt(self, ctx, s):
+        if isinstance(ctx.node, ast.FunctionDef):
+            for note in unbound_reads(ctx.node):
+                note = '%s.py: %s' % (ctx.modname, note)
+                if note not in self.asserts:
+                    self.asserts.append(note)
+        ub = []
+        for nm in getattr(s, '_c16_unbound', None) or []:
+            k = (ctx.modname, ctx.node.name, nm)
+            if k in KNOWN_UNBOUND:
+                note = 'NOT SAFE, %s (local `%s` in %s.py %s())' % (KNOWN_UNBOUND[k], nm, ctx.modname, ctx.node.name)
+                if note not in self.asserts:
+                    self.asserts.append(note)
+            elif k in GUARDED_READS:
+                note = 'guarded read of local `%s` in %s.py %s(): %s' % (nm, ctx.modname, ctx.node.name, GUARDED_READS[k])
+                if note not in self.asserts:
+                    self.asserts.append(note)
+            else:
+                ub.append(nm)
+        if ub:
+            # a local that is not assigned on every path to this read: CPython raises UnboundLocalError here
+            return seq(choice(SKIP, ('Raise', 'UnboundLocalError', 0)), self.stmt1(ctx, s))
+        return self.stmt1(ctx, s)
+
+    def stmt1(self, ctx, s):
         t = type(s)
         where = '%s:%d' % (ctx.modname, s.lineno)
         if t is ast.FunctionDef:
